@@ -1,6 +1,7 @@
 CFG = {
     "lean_targets": ["Norad.Props.C18"],
     "audit": "Norad/Audit/C18.lean",
+    "extract": "ds_consts",
     "rule": ("generated designspace documents built through the public structs (1-3 axes continuous/discrete/hidden with "
              "maps, 0-3 rules with 1-3 condition sets and substitutions, both processing modes, 1-3 sources, 0-2 instances "
              "with all seven optional attributes present/absent, document and instance libs with every plist type incl. "
@@ -16,7 +17,8 @@ CFG = {
     "timeout": {"quick": 600, "thorough": 7200},
     "trusted_base": COMMON_TRUST + [
         "modelled, not verified: quick-xml 0.37 serializer/deserializer (field -> attribute/element mapping, text trimming, xs:list splitting, escaping), serde derive, plist::Dictionary (IndexMap insert semantics)",
-        "codec parameter (hypothesis CodecLaws of the theorems; satisfiable: codec_laws_satisfiable; the integer and base64 parts are proved for the Lean implementations the driver runs, the float Display and RFC 3339 date parts remain hypotheses): f32/f64/i64/u64 Display and FromStr round trip for non-NaN values, base64 STANDARD, plist::Date RFC 3339 formatting; the driver instantiates it per line from Rust's own to_string/to_xml_format output printed by the harness and checks the assumed laws on every such string (tag codec-law-broken)",
+        "codec parameter (hypothesis CodecLaws of the theorems; satisfiable: codec_laws_satisfiable; the integer and base64 parts are proved for the Lean implementations the driver runs; the date part is a real RFC 3339 implementation in Lean, proved a round trip under the single named hypothesis CalendarInverse (days_from_civil . civil_from_days = id on years 0000-9999) and compared with plist::Date::to_xml_format/from_xml_format on every date of every run (tag date-impl-differs); the float Display part remains a hypothesis): f32/f64/i64/u64 Display and FromStr round trip for non-NaN values, base64 STANDARD, plist::Date RFC 3339 formatting; the driver instantiates it per line from Rust's own to_string/to_xml_format output printed by the harness and checks the assumed laws on every such string (tag codec-law-broken)",
+        "tools/extract_ds_consts.py (regex translator of designspace.rs, serde_xml_plist.rs and the vendored quick-xml 0.37 / plist 1.x / time 0.3 sources into lean/Norad/Generated/DsConsts.lean; trusted in one direction only: a wrong extraction can make a source_* theorem fail or fall back to tools/pinned/DsConsts.lean, it cannot make a false theorem check)",
         "python3 xml.etree (expat) as the independent XML reader; harness/src/c18_xmltree.py turns its tree into protocol tokens",
         "Spec.conformView (attribute-value and line-end normalisation of a conforming XML processor) predicts what xml.etree sees; ds_spec_reader_finds_values is stated over it",
         "the independent foreign-surface writer in harness/src/c18.rs (its files are checked to be XML by xml.etree on every case)",
@@ -34,7 +36,10 @@ MANIFEST = {
              "specification's names finds the same values in the written tree), plist_glue_roundtrip (every plist value type except Uid, "
              "nested to any depth, by mutual induction), glue_never_panics; counterexample theorems for the recorded findings. The model is "
              "tied to the code by saving generated documents with norad, loading them back (==) and reading the file with xml.etree; the "
-             "tree and the loaded document must equal the model's, and the specification reader is run on the file's tree."),
+             "tree and the loaded document must equal the model's, and the specification reader is run on the file's tree. Source-level tie: "
+             "twelve source_* theorems state that the escape/unescape tables, serializer defaults, norad's writer settings, the serde field "
+             "table (names, skip rules, defaults, list wrappers), the glue keywords and the date format/range regenerated from the Rust "
+             "sources of the run are the model's; escape_unescape_text/attr prove unescape . escape = id for every string."),
     "design_ref": "5 / C18",
     "note": "trusted: Lean kernel, quick-xml/serde/plist behaviour as modelled, number/base64/date formatting as a codec parameter with checked laws, xml.etree as independent reader",
     "technique": "Lean 4 theorems (structural + mutual induction over plist values) + save/load/independent-reader correspondence",
